@@ -639,6 +639,14 @@ def sibling_spec(rs, spec, p=None):
     vtyp = float(m.V.mean())
     ntyp = max(1.0, float(abs(m.x0).mean()))
     s["reactions"] = draw_reactions(rs, labels, nenv, ntyp / vtyp, p, len(spec["reactions"]))
+    if s["space"]["type"] == "grid" and rs.chance(0.6):
+        # same shape, other boundary conditions (what a table cached by shape alone would get wrong)
+        k = rs.randint(0, 2)
+        bc = list(s["space"]["bc"])
+        bc[k] = "reflecting" if bc[k] == "periodical" else "periodical"
+        if not (bc[k] == "periodical" and [s["space"]["w"], s["space"]["h"], s["space"]["d"]][k] == 1
+                and not p["allow_len1_periodic"]):
+            s["space"]["bc"] = bc
     if s.get("state") is not None:
         s["state"] = [v * rs.loguniform(0.5, 2.0) for v in s["state"]]
         if p["integer_state"]:
